@@ -200,6 +200,7 @@ def dynamic_scenarios(root):
             fails.append(dict(clause="undeclared-call-refused", scenario="explicitly-versioned-callee", callee_memoized=pre, got=res[:2]))
     fails += package_init_scenario(root)
     fails += names_scenario(root)
+    fails += cross_package_scenario(root)
     seq = [["import"], ["deps", "late_user"], ["call", "late_user", 1], ["bind", "aux", "late", "secret"], ["deps", "late_user"], ["call", "late_user", 2]]
     out = vrun.child(dict(root=root, pkg=pkg, store=os.path.join(root, "store2"), actions=seq))
     try:
@@ -276,6 +277,59 @@ def names_scenario(root):
                 fails.append(dict(clause="declared-call-allowed", scenario="wrappers-and-shadowing-parameters", fn=who, got=out[i + 1]["result"][:3]))
     except Exception as e:
         fails.append(dict(clause="dependencies-computable", scenario="names", error=repr(e), out=out))
+    return fails
+
+
+def cross_package_scenario(root):
+    """memento functions of another package reached through `module.attribute` (plain import, import-as, through a plain
+    helper); dependencies whose bare names are those of builtins (`filter`, `format`, an alias `repr`); hidden calls made
+    through `map_over_range`"""
+    pkg = "vcross_%d" % os.getpid()
+    lib = "vxlib_%d" % os.getpid()
+    d = os.path.join(root, pkg)
+    os.makedirs(d, exist_ok=True)
+    os.makedirs(os.path.join(root, lib), exist_ok=True)
+    open(os.path.join(d, "__init__.py"), "w").write("")
+    open(os.path.join(root, lib, "__init__.py"), "w").write("")
+    M = 'from twosigma.memento import memento_function\n'
+    open(os.path.join(root, lib, "core.py"), "w").write(
+        M + '\n\n@memento_function(cluster="vp")\ndef leaf(x):\n    return x + 1\n\n\n@memento_function(cluster="vp")\ndef price(x):\n    return leaf(x) * 2\n')
+    open(os.path.join(d, "aux.py"), "w").write(
+        M + '\n\n@memento_function(cluster="vp")\ndef load(x):\n    return x + 1\n\n\n@memento_function(cluster="vp")\ndef filter(x):\n    return x + 2\n\n\n'
+        '@memento_function(cluster="vp")\ndef format(x):\n    return x + 3\n\n\n@memento_function(cluster="vp")\ndef render(x):\n    return x + 4\n')
+    open(os.path.join(d, "mod.py"), "w").write(
+        M + 'import %s.core\nimport %s.core as corealias\nfrom . import aux\nfrom .aux import load, filter, format\nfrom .aux import render as repr\n\n\n' % (lib, lib) +
+        'def helper(x):\n    return %s.core.price(x)\n\n\n' % lib +
+        '@memento_function(cluster="vp")\ndef by_attr(x):\n    return %s.core.price(x)\n\n\n' % lib +
+        '@memento_function(cluster="vp")\ndef by_alias(x):\n    return corealias.price(x)\n\n\n'
+        '@memento_function(cluster="vp")\ndef through_helper(x):\n    return helper(x)\n\n\n'
+        '@memento_function(cluster="vp")\ndef builtin_names(x):\n    return [filter(x), format(x), load(x)]\n\n\n'
+        '@memento_function(cluster="vp")\ndef alias_builtin(x):\n    return repr(x)\n\n\n'
+        '@memento_function(cluster="vp")\ndef hidden_map(x):\n    return sorted(vars(aux)["lo" + "ad"].map_over_range(x=[x]).items())\n\n\n'
+        '@memento_function(cluster="vp")\ndef hidden_pmap(x):\n    return sorted(vars(aux)["lo" + "ad"].force_local().map_over_range(x=[x, x + 1]).items())\n\n\n'
+        '@memento_function(cluster="vp")\ndef hidden_batch(x):\n    return vars(aux)["lo" + "ad"].call_batch([{"x": x}])\n')
+    want = [("by_attr", ["leaf", "price"], ["ok", 6]), ("by_alias", ["leaf", "price"], ["ok", 6]), ("through_helper", ["leaf", "price"], ["ok", 6]),
+            ("builtin_names", ["filter", "format", "load"], ["ok", [4, 5, 3]]), ("alias_builtin", ["render"], ["ok", 6])]
+    acts = [["import"]]
+    for who, _, _ in want:
+        acts += [["deps", who], ["call", who, 2]]
+    hidden = ["hidden_map", "hidden_pmap", "hidden_batch"]
+    acts += [["call", h, 2] for h in hidden]
+    fails = []
+    out = vrun.child(dict(root=root, pkg=pkg, store=os.path.join(root, "store_cross"), actions=acts))
+    try:
+        for i, (who, trans, val) in enumerate(want):
+            dep, res = out[1 + 2 * i], out[2 + 2 * i]
+            if dep["trans"] != trans:
+                fails.append(dict(clause="transitive-dependencies-exact", scenario="cross-package-and-builtin-names", fn=who, got=dep["trans"], expected=trans))
+            if res["result"][:2] != val:
+                fails.append(dict(clause="declared-call-allowed", scenario="cross-package-and-builtin-names", fn=who, got=res["result"][:3]))
+        for j, who in enumerate(hidden):
+            res = out[1 + 2 * len(want) + j]["result"]
+            if not (res[0] == "raise" and res[1] == "UndeclaredDependencyError"):
+                fails.append(dict(clause="undeclared-call-refused", scenario="hidden-call-through-a-batch-entry-point", fn=who, got=res[:2]))
+    except Exception as e:
+        fails.append(dict(clause="dependencies-computable", scenario="cross-package-and-builtin-names", error=repr(e), out=out))
     return fails
 
 
